@@ -268,12 +268,12 @@ from harness.translate.options import CHAR_ALPHABET  # noqa: E402
 SPECIAL = [chr(cp) for cp in CHAR_ALPHABET]
 QWORDS += ["a" + c + "b" for c in SPECIAL] + [SPECIAL[i] + SPECIAL[-1 - i] for i in range(0, len(SPECIAL), 3)]
 PUNCT += [c for c in SPECIAL[::2]] + ["(" + SPECIAL[-2], SPECIAL[7] + "»"]
-QBAD = ['x\ry', '\r', 'say "hi"', 'a"', 'x"y', 'back\\slash', 'tab\\there', 'end\\', 'q\\q', "it's \"x\"", 'a\\"b', "C:\\new"]
+QBAD = ['say "hi"', 'a"', 'x"y', 'back\\slash', 'tab\\there', 'end\\', 'q\\q', "it's \"x\"", 'a\\"b', "C:\\new"]
 TAGS = [("b", None), ("i", {}), ("a", {"href": "http://x.org/?a=1&b=2"}), ("span", {"class": "c d", "id": "n1"}),
         ("p", {"title": "it's"}), ("div", {"data-x": 'say "hi"'}), ("a b", None)]
 TAGS += [("t" + c, None) for c in SPECIAL[::3]] + [("u" + c, {"k" + SPECIAL[(i * 5) % len(SPECIAL)]: "v" + c})
                                                   for i, c in enumerate(SPECIAL[1::2])]
-TAGSBAD = [("c\rr", {"k": "v"}), ("c\rr", None), ('q"t', None), ('q"t', {"k": "v"}), ("b\\c", {"k": "v"})]
+TAGSBAD = [('q"t', None), ('q"t', {"k": "v"}), ("b\\c", {"k": "v"})]
 DATES = ["2024-01-05", "1999-12-28T23:59:58", "2023-07-14 00:00:00", "2024-02-28T12:00:00", "2000-01-01 12:30:00"]
 NUMS = [0, 1, 2, 3, 21, 100, 1000, 1234567, -5, "1", "25", "3.5", "1000", "-2", "+7", "12."]
 NEGFR = ["plus", "jamais", "rien", "personne", "guère"]
@@ -603,6 +603,8 @@ class Gen:
                 v = r.choice(NEGFR)
             if r.random() < self.cfg["invalid"]:
                 v = "zz"
+            if isinstance(v, bool) and r.random() < 0.06:
+                v = int(v)   # a numeric flag value: stored as the boolean it equals (6301216)
             d[k] = v
         if r.random() < self.cfg["invalid"]:
             d["zz"] = True
@@ -1038,7 +1040,6 @@ def adj_stable(np, L):
 # which clause failures each feature is known to explain: feature -> route -> aspects
 ANY = ("text", "json", "source")
 EXPLAINS = [
-    ("cr", {"source": ("err:SyntaxError",)}),
     ("datetime", {"json-text": ("err:TypeError",), "source": ("err:NameError", "json"), "json": ("source",)}),
     ("rtime-str", {"json-text": ("err:TypeError",), "json": ("source",), "source": ()}),
     ("NO-letters", {"source": ("json", "text"), "json": ("json", "source", "text"),
